@@ -55,6 +55,8 @@ def template(kind='vars', extra='', lit=None):
                          ('sequence-start', 'b_start'), ('sequence-end', 'b_end')):
                 row = row.replace(a, b)
             src = '<dtml-in seq start=st end=en size=sz orphan=orp overlap=ov prefix=b>' + row + '<dtml-else>EMPTY</dtml-in>'
+        elif kind == 'reent':          # the first displayed element's body renders the same template object again, with other parameters
+            src = SRC_VARS % ('<dtml-if sequence-start><dtml-call reenter></dtml-if>' + extra)
         elif kind == 'lit':
             src = ('<dtml-in seq start=%d end=%d size=%d orphan=%d overlap=%d>' % lit +
                    ROW % extra + '<dtml-else>EMPTY</dtml-in>')
@@ -249,6 +251,20 @@ def observe(par, kind='vars', seqkind='list', as_str=False, extra=''):
     else:
         t = template(kind, extra)
         kw = dict(st=conv(start), en=conv(end), sz=conv(size), orp=conv(orphan), ov=conv(overlap), rv0=0)
+        if kind == 'reent':
+            state = {'done': False}
+
+            def reenter():
+                # a listing that includes itself (a teaser of the same method): one inner rendering, parameters of its own
+                if not state['done']:
+                    state['done'] = True
+                    try:
+                        t(seq=list(range(1, 12)), pulls=lambda: 0, st=2, en=0, sz=max(1, (size % 3) + 2), orp=(orphan + 1) % 3,
+                          ov=(overlap + 1) % 3, rv0=0, reenter=lambda: '')
+                    except Exception:  # noqa
+                        pass
+                return ''
+            kw['reenter'] = reenter
     obs = {'p': list(par), 'e': 0, 'c': 0, 'r': [], 'pl': 0, 'ln': 0}
     try:
         out = t(seq=seq, pulls=pulls, **kw)
